@@ -69,5 +69,7 @@ class SMMapSet(
         sms = super(SMMapSet, self).rate(by=by)
         sms.sample_start /= by
         sms.sample_length /= by
+        if sms.offset is not None:
+            sms.offset /= by
 
         return sms
